@@ -35,10 +35,12 @@ class FluidStub:
                 rho.append(rho[-1] + fresh(f"drho{k}{name}", pos=True))
             self.pvt_props = {"m-scaled": SymArray(ms, "f8"), "density": SymArray(rho, "f8")}
 
-    def alpha(self, m):
-        if isinstance(m, SymArray):
-            return m._map(self.alpha, "f8")
-        return simp(T.mkUF(f"alpha{self.name}", [lift(m).p], True))
+    @property
+    def alpha(self):
+        a = self.__dict__.get("_alpha_obj")
+        if a is None:
+            a = self.__dict__["_alpha_obj"] = _AlphaStub(self)
+        return a
 
     def m_scaled_func(self, p):
         if isinstance(p, SymArray):
@@ -55,6 +57,63 @@ class FluidStub:
                 c.assume((lift(v) >= 0).node)
             c.assume((lift(v) <= self.m_i).node)
         return v
+
+
+class _AlphaStub:
+    """FlowProperties.alpha: callable (an uninterpreted positive function of scaled pseudopressure) that also looks like
+    the scipy interpolator it really is: `.x` / `.y` are the table nodes it was built from.  The node attributes exist
+    only once the code under analysis reads them; from then on every value the function takes lies within the node values'
+    range (the clipped lookup C09 establishes)."""
+
+    def __init__(self, fluid):
+        self.fluid = fluid
+        self.apps = []
+        self.nodes = None
+        self.pending = []
+
+    def __call__(self, m):
+        if isinstance(m, SymArray):
+            return m._map(self.__call__, "f8")
+        v = simp(T.mkUF(f"alpha{self.fluid.name}", [lift(m).p], True))
+        if isinstance(v, Sym) and all(v.p != w.p for w in self.apps):
+            self.apps.append(v)
+            if self.nodes is not None:
+                self._bound(v)
+        return v
+
+    def _bound(self, v):
+        from ..sx.sym import s_min, s_max
+        ys = self.nodes[1].d
+        lo, hi = ys[0], ys[0]
+        for y in ys[1:]:
+            lo, hi = s_min(lo, y), s_max(hi, y)
+        from ..sx.sym import Context
+        c = Context.current
+        if c is None:
+            # a reference term built by the harness after the path ended: the harness adds `pending` to its query
+            self.pending += [(lift(v) >= lift(lo)).node, (lift(v) <= lift(hi)).node]
+            return
+        c.assume((lift(v) >= lift(lo)).node)
+        c.assume((lift(v) <= lift(hi)).node)
+
+    def _make(self):
+        if self.nodes is None:
+            n = self.fluid.name
+            x0 = fresh(f"alpha_x0{n}")
+            xs = [x0, x0 + fresh(f"alpha_dx1{n}", pos=True), None]
+            xs[2] = xs[1] + fresh(f"alpha_dx2{n}", pos=True)
+            self.nodes = (SymArray(xs, "f8"), SymArray([fresh(f"alpha_y{k}{n}", pos=True) for k in range(3)], "f8"))
+            for v in self.apps:
+                self._bound(v)
+        return self.nodes
+
+    @property
+    def x(self):
+        return self._make()[0]
+
+    @property
+    def y(self):
+        return self._make()[1]
 
 
 def times(nt, prefix="t", strict=True):
